@@ -30,8 +30,13 @@ impl SelectState {
         }
     }
 
+    /// A retransmission keeps the selection alive only if it directly follows the SELECT
+    /// (or an earlier retransmission of it). A retransmission of anything received after
+    /// the SELECT, e.g. of a broadcast, must not revive it.
     pub(crate) fn update_frame_id(&mut self, new_frame_id: u32) {
-        self.frame_id = new_frame_id;
+        if self.frame_id.wrapping_add(1) == new_frame_id {
+            self.frame_id = new_frame_id;
+        }
     }
 
     pub(crate) fn match_operate(
